@@ -108,7 +108,7 @@ type op struct {
 var sizes = []uint64{0, 1, 5, 10, 100}
 var consensus = []int{0, 1, 3, 5, 10}
 
-func buildMenu() (ops []op, names []string) {
+func buildMenu(sizes []uint64) (ops []op, names []string) {
 	for p := range pids {
 		for _, s := range sizes {
 			ops = append(ops, op{kind: 0, peer: p, size: s})
@@ -413,7 +413,7 @@ func main() {
 			depth = *devDepth
 			c.Cap("dev: depth override")
 		}
-		ops, names := buildMenu()
+		ops, names := buildMenu(sizes)
 		var cfgs []config
 		// simplest first, so that the first witness of a signature is a small one
 		for _, factor := range []float32{0, 0.5, 2} {
@@ -441,11 +441,29 @@ func main() {
 			config{Base: 2, MaxSize: 10, Reserved: 0, Threshold: 0, Factor: 3e9},
 			config{Base: math.MaxUint32, MaxSize: math.MaxUint64, Reserved: 50, Threshold: 0, Factor: 2},
 		)
+		// Large byte quotas (at and above 2^24, where float32 can no longer hold every integer,
+		// and above 2^32 / 2^53): the message sizes are chosen relative to the unreserved share
+		// so that a few messages reach it.
+		nLarge := 0
+		largeMenus := map[int][2]interface{}{}
+		for _, maxSize := range []uint64{1<<24 + 3, 1<<32 + 300, 1<<53 + 1} {
+			for _, reserved := range []float32{0, 50} {
+				g := config{Base: 5, MaxSize: maxSize, Reserved: reserved, Threshold: 0, Factor: 0}
+				share := newSystem(0, g, nil, nil).shareSz
+				lo, ln := buildMenu([]uint64{1, 100, share - 2, share / 2})
+				largeMenus[len(cfgs)] = [2]interface{}{lo, ln}
+				cfgs = append(cfgs, g)
+				nLarge++
+			}
+		}
 		var systems []*system
 		edgeRejected := 0
 		for i, g := range cfgs {
 			y := newSystem(i, g, ops, names)
-			if i >= nProduct {
+			if m, ok := largeMenus[i]; ok {
+				y.ops, y.names = m[0].([]op), m[1].([]string)
+			}
+			if i >= nProduct && largeMenus[i][0] == nil {
 				if st := y.init(); st.q == nil { // not accepted by the constructor: outside the quantifier
 					edgeRejected++
 					continue
@@ -453,8 +471,8 @@ func main() {
 			}
 			systems = append(systems, y)
 		}
-		c.Rule = fmt.Sprintf("one explicit-state BFS with state matching per configuration in base max {1,2,5} x max size {1,10,100} x reserved {0,33.3,50,90} x threshold {0,3} x factor {0,0.5,2} (%d configurations, all accepted by NewQuotaFloodPreventer) plus those of %d edge configurations (PercentReserved NaN x2; IncreaseFactor NaN, +Inf, 3e9; base 2^32-1 with max size 2^64-1) that the constructor accepts (%d do), on the real quotaFloodPreventer over a real LRU (capacity 1000); events IncreaseLoad(pid in {p,q}, size in %v), Reset, ApplyConsensusSize(n in %v): all event sequences of length <= %d; state = (computed max held by the preventer, the harness's reference quota, both peers' quota records, the oracle's per-peer interval bookkeeping), mirror images under swapping p and q merged; non-trivial = a message refused by the real preventer after >=1 accepted message of that peer in the interval (distinguished by configuration, number accepted, and whether the quota moved in the interval)",
-			nProduct, len(cfgs)-nProduct, len(cfgs)-nProduct-edgeRejected, sizes, consensus, depth)
+		c.Rule = fmt.Sprintf("one explicit-state BFS with state matching per configuration in base max {1,2,5} x max size {1,10,100} x reserved {0,33.3,50,90} x threshold {0,3} x factor {0,0.5,2} (%d configurations, all accepted by NewQuotaFloodPreventer) plus those of %d edge configurations (PercentReserved NaN x2; IncreaseFactor NaN, +Inf, 3e9; base 2^32-1 with max size 2^64-1) that the constructor accepts (%d do), plus %d large-quota configurations (max size {2^24+3, 2^32+300, 2^53+1} x reserved {0,50}, base 5; sizes {1, 100, share-2, share/2} with share = the unreserved byte share), on the real quotaFloodPreventer over a real LRU (capacity 1000); events IncreaseLoad(pid in {p,q}, size in %v), Reset, ApplyConsensusSize(n in %v): all event sequences of length <= %d; state = (computed max held by the preventer, the harness's reference quota, both peers' quota records, the oracle's per-peer interval bookkeeping), mirror images under swapping p and q merged; non-trivial = a message refused by the real preventer after >=1 accepted message of that peer in the interval (distinguished by configuration, number accepted, and whether the quota moved in the interval)",
+			nProduct, len(cfgs)-nProduct-nLarge, len(cfgs)-nProduct-nLarge-edgeRejected, nLarge, sizes, consensus, depth)
 		c.Assumptions = []string{
 			"the LRU never evicts (capacity 1000, 2 peers); an evicting cache restarts a peer's record and is outside the statement",
 			"operations are applied one at a time (the preventer serialises them under its mutex); no concurrency is explored",
@@ -502,7 +520,7 @@ func main() {
 		c.Bound = fmt.Sprintf("all event sequences of length <= %d in each of %d configurations", depth, len(systems))
 		c.Count("configurations", int64(len(systems)))
 		c.Count("replayed_steps_with_undefined_formula_value", atomic.LoadInt64(&undefinedTotal))
-		c.Count("edge_configurations_accepted_by_constructor", int64(len(cfgs)-nProduct-edgeRejected))
+		c.Count("edge_configurations_accepted_by_constructor", int64(len(cfgs)-nProduct-nLarge-edgeRejected))
 		c.Count("edge_configurations_rejected_by_constructor", int64(edgeRejected))
 		c.Count("configurations_searched_to_fixpoint", int64(fix))
 		c.Count("largest_state_count_of_one_configuration", maxStates)
@@ -526,7 +544,7 @@ func replay(c *mc.Ctx, systems []*system) {
 			}
 		}
 		if len(ops) != len(names) {
-			c.Fatal("unknown operation name in replay")
+			continue // this configuration has another size menu
 		}
 		s := y.init()
 		c.Eval(1)
